@@ -14,6 +14,14 @@
                the script); at the end the registries hold exactly the contents committed
                with their own digests and nothing under any other digest of interest.
 
+     (unseen)  after the registries have lost everything (XForget) the remembered id names an
+               upload the registry has never seen.  A registry may refuse to resume it (no
+               further expectation); if the resume succeeds the registry holds ZERO bytes
+               of that upload: asked for the offset it says 0, and data sent through a
+               writer positioned at an explicit offset other than 0 is refused as range
+               invalid (416 over HTTP) by the time that writer is closed or committed, and
+               is not part of the upload, which then still completes from offset 0.
+
    Results are looked at only through ok / error / status, never the error code. *)
 From Coq Require Import String.
 From OCI Require Export Model.UploadX Model.UploadSpec.
@@ -24,6 +32,8 @@ Inductive xs :=
   | XsInit
   | XsOpen (g : bytes) (post : bool)      (* post: a Commit has reached the session; only (commits) is stated then *)
   | XsClosed (g : bytes) (post : bool)
+  | XsForgot                              (* the registries hold nothing; no writer in hand *)
+  | XsEp (seen : bool) (sent : bytes)     (* a writer at an offset > 0 on an upload of which the registry holds nothing *)
   | XsStop.
 
 Record xk := { k_s : xs; k_armed : option Z; k_mark : option bytes; k_done : list (bytes * bytes) }.
@@ -35,6 +45,9 @@ Definition arm (k : xk) (a : option Z) : xk :=
   {| k_s := k_s k; k_armed := a; k_mark := k_mark k; k_done := k_done k |}.
 Definition set_mark (k : xk) (g : bytes) : xk :=
   {| k_s := k_s k; k_armed := k_armed k; k_mark := Some g; k_done := k_done k |}.
+Definition forgot (k : xk) : xk :=
+  {| k_s := XsForgot; k_armed := k_armed k;
+     k_mark := match k_mark k with Some _ => Some [] | None => None end; k_done := [] |}.
 Definition record_commit (k : xk) (d g : bytes) : xk :=
   {| k_s := k_s k; k_armed := k_armed k; k_mark := k_mark k; k_done := (d, g) :: k_done k |}.
 
@@ -63,8 +76,16 @@ Definition mark_is (k : xk) (g : bytes) : bool :=
 
 Definition is_uok_any (r : ures) : bool := match r with UOk _ => true | _ => false end.
 
+(* a refusal of misplaced data, as far as a normalised observation shows it *)
+Definition is_refusal_x (http : bool) (r : ures) : bool :=
+  match r with
+  | UErr _ st => if http then st =? 416 else (st =? 0) || (st =? 416)
+  | _ => false
+  end.
+
 Section XCheck.
   Variable hash : bytes -> bytes.
+  Variable http : bool.
 
   Definition xcommit (k : xk) (closed : bool) (g : bytes) (post : bool) (dg : bytes) (r : ures) : xk * bool :=
     let same := fun p => if closed then XsClosed g p else XsOpen g p in
@@ -105,6 +126,32 @@ Section XCheck.
         match one_fault plan with
         | Some a => (arm k a, is_uok 0 r)
         | None => (stop k, true)
+        end
+    | _, XForget => (forgot k, is_uok 0 r)
+    | XsForgot, XResumeMark m _ =>
+        match k_mark k with
+        | None => (stop k, true)
+        | Some _ =>
+            if negb (is_uok 0 r) then (stop k, true)      (* a registry may refuse an upload it does not know *)
+            else match m with
+                 | MSize => (stop k, true)
+                 | MInfo => (set_s k (XsOpen [] false), sz =? 0)
+                 | MAt off =>
+                     if off =? 0 then (set_s k (XsOpen [] false), sz =? 0)
+                     else if 0 <? off then (set_s k (XsEp false []), true)
+                     else (stop k, true)
+                 end
+        end
+    | XsEp seen sent, XU (UWrite d) =>
+        (set_s k (XsEp (seen || is_uerr r) (sent ++ d)), is_uok (blen d) r || is_refusal_x http r)
+    | XsEp seen sent, XU UClose =>
+        (set_s k (XsClosed [] false),
+         (is_uok 0 r || is_refusal_x http r)
+         && (match sent with [] => true | _ => seen || is_uerr r end))
+    | XsEp seen sent, XU (UCommit _) =>
+        match sent, seen with
+        | _ :: _, false => (set_s k (XsClosed [] false), is_refusal_x http r)
+        | _, _ => (stop k, true)
         end
     | XsInit, XU (UStart _) => need k r (is_uok 0 r && (sz =? 0)) (XsOpen [] false) true
     | XsOpen g false, XU (UWrite d) =>
@@ -170,11 +217,20 @@ Section XCheck.
     | _, _ => true
     end.
 
+  (* the part of a script after the last XForget (what was committed before it is gone) *)
+  Fixpoint since_forget (ops : list xop) (obs : list uobs) (acc : list xop * list uobs) : list xop * list uobs :=
+    match ops, obs with
+    | o :: ops', _ :: obs' =>
+        since_forget ops' obs' (match o with XForget => (ops', obs') | _ => acc end)
+    | _, _ => acc
+    end.
+
   Definition k0 : xk := {| k_s := XsInit; k_armed := None; k_mark := None; k_done := [] |}.
 
   Definition xcheck (ops : list xop) (obs : list uobs) (stored : list (bytes * list (option bytes))) : bool :=
     let '(k, ok) := xsteps k0 ops obs in
-    ok && xstored_ok k stored && commits_ok false ops obs stored.
+    let '(ops1, obs1) := since_forget ops obs (ops, obs) in
+    ok && xstored_ok k stored && commits_ok false ops1 obs1 stored.
 End XCheck.
 
 (* what the checker can see of an observation *)
